@@ -132,10 +132,10 @@ fn static_str(pool: &[&'static str], s: &str) -> Option<&'static str> {
 
 const CLASSES: [&str; 5] = ["panic", "out_of_range", "roundtrip", "serialize_failed", "other"];
 const OUTCOME_NAMES: [&str; 6] = ["panic", "ok_out_of_range", "ok_other_in_range", "ok_same", "ok_in_range_damaged_or_foreign", "err"];
-const PROBE_NAMES: [&str; 9] = [
+const PROBE_NAMES: [&str; 10] = [
     "decoded_exactly_min", "decoded_exactly_max", "raw_payload_one_past_a_limit", "raw_payload_integer_extreme",
     "oracle_payload_with_subsecond_part", "malformed_or_out_of_range_text_payload", "json_payload_that_is_not_a_string",
-    "value_handed_over_by_another_format", "other",
+    "value_handed_over_by_another_format", "run_on_a_fresh_thread", "other",
 ];
 
 impl Stats {
@@ -398,13 +398,32 @@ fn enumerate_record(ty: Ty, codec: Codec, clean: &[u8], stats: &mut Stats) -> Op
             let mut cands: Vec<u64> = vec![0, 1, 12, 13, 23, 24, 28, 29, 30, 31, 32, 59, 60, 61, 99, 100, 365, 366, 999, 9999, 10000, all9, orig + 1, orig.wrapping_sub(1)];
             cands.sort();
             cands.dedup();
-            for c in cands {
-                if c == orig || c > all9 {
-                    continue;
-                }
-                let rep = format!("{:0width$}", c, width = width);
-                let mut b2 = clean.to_vec();
-                b2[start..end].copy_from_slice(rep.as_bytes());
+            // same-width boundary numbers, then fields of a DIFFERENT width
+            // (longer fractions, more digits than the layout writes, one digit less)
+            let orig_s = std::str::from_utf8(&clean[start..end]).unwrap().to_string();
+            let mut reps: Vec<String> = cands
+                .into_iter()
+                .filter(|c| *c != orig && *c <= all9)
+                .map(|c| format!("{:0width$}", c, width = width))
+                .collect();
+            for extra in ["0", "5", "9", "95", "999"] {
+                reps.push(format!("{}{}", orig_s, extra));
+            }
+            for k in 1..=3 {
+                reps.push("9".repeat(width + k));
+            }
+            reps.push(format!("{}5", "9".repeat(width)));
+            reps.push(format!("{}5", "9".repeat(width + 1)));
+            reps.push("0".repeat(width + 1));
+            if width > 1 {
+                reps.push(orig_s[..width - 1].to_string());
+                reps.push("9".repeat(width - 1));
+            }
+            for (ci, rep) in reps.into_iter().enumerate() {
+                let c = ci as u64;
+                let mut b2 = clean[..start].to_vec();
+                b2.extend_from_slice(rep.as_bytes());
+                b2.extend_from_slice(&clean[end..]);
                 let got = codec::decode_slice(ty, codec, &b2);
                 stats.decodes += 1;
                 stats.enumerated_decodes += 1;
@@ -1453,7 +1472,15 @@ fn main() {
                 let (n, ff) = if phase == "clean" { (n_clean, true) } else { (n_fault, false) };
                 let mut idx = k;
                 while idx < n {
-                    if let (sc, Some(v)) = simulate_run(seed, idx, ff, &mut acc) {
+                    // one run in eight executes on a thread of its own: per-thread
+                    // library state is then in its first-use condition
+                    let outcome = if idx % 8 == 5 {
+                        acc.probe("run_on_a_fresh_thread");
+                        std::thread::scope(|s| s.spawn(|| simulate_run(seed, idx, ff, &mut acc)).join().expect("harness thread"))
+                    } else {
+                        simulate_run(seed, idx, ff, &mut acc)
+                    };
+                    if let (sc, Some(v)) = outcome {
                         acc.violations.push((idx, sc, v));
                         break;
                     }
